@@ -137,6 +137,9 @@ Definition generateSubKeys (key : list N) : outcome (list N) :=
   Ok (subkey_loop gen_ck (N.lxor b0 (nth 0 gen_fk 0), N.lxor b1 (nth 1 gen_fk 0),
                           N.lxor b2 (nth 2 gen_fk 0), N.lxor b3 (nth 3 gen_fk 0))).
 
+(* type Sm4Cipher struct { subkeys []uint32 }: generateSubKeys reads the key bytes into words
+   (permuteInitialBlock) and returns a fresh []uint32; no reference to the caller's key slice is kept, so the
+   object is a function of the key VALUES at the time of NewCipher. *)
 Record Sm4Cipher := mkCipher { subkeys : list N }.
 
 (* func NewCipher(key []byte) (cipher.Block, error).  Err 1 = "SM4: invalid key size" *)
